@@ -154,7 +154,13 @@ class Explorer:
         return vals
 
     def hash_model(self, P, v):
-        raise Unsupported('hash() of builtin value (use a contract with the hash model)')
+        # assumed stdlib contract (DESIGN H3): hash(int i) == hash(Fraction(i)) == H(i) for one uninterpreted H: Q -> Z
+        from .values import is_fraclike, is_intlike
+        from .intrinsics import PYHASH
+        from .values import as_z3real
+        if is_intlike(v) or is_fraclike(v):
+            return PYHASH(as_z3real(v))
+        raise Unsupported('hash() of builtin value (only int / Fraction are modelled)')
 
     def frac_part(self, P, v, attr):
         """
